@@ -296,16 +296,7 @@ def run(ctx: Ctx):
             else:
                 ctx.check(v.get("ok", False), "R01.h", key, f"{r} (vetted)", f"numpy printer: {name} falls through to {r}: {v.get('why', 'not value-preserving')}", "")
     printers.check_no_unvetted_override(ctx, "R01.h", "numpy", skip=("sign", "DiracDelta"))
-    fl = M.method("numpy", "_print_Float")
-    if fl is None:
-        ctx.fail("R01.h", "numpy-printer::Float::repr", "numpy printer has no _print_Float of its own (sympy prints 15 significant digits)", "")
-    else:
-        ft = util.printed_text(ctx, fl)
-        p0 = fl.params[1] if len(fl.params) > 1 else "flt"
-        if ft is None:
-            ctx.undecided("R01.h", "numpy-printer::Float::repr", "what _print_Float returns is not understood", fl.where())
-        else:
-            ctx.check(ft in ("{float(" + p0 + ")}", "{repr(float(" + p0 + "))}"), "R01.h", "numpy-printer::Float::repr", "Float -> shortest round-trip repr", f"numpy printer: a Float is printed as `{ft}`, not as str(float(value)) (digits would be lost or added)", fl.where())
+    printers.check_float_repr(ctx, "R01.h", "numpy")
     for cname, fn in (("And", "numpy.logical_and"), ("Or", "numpy.logical_or")):
         f = M.method("numpy", f"_print_{cname}")
         frs = " ".join(pm.fragments(f)) if f else ""
